@@ -11,7 +11,7 @@ Theorems about the model `Andes/Model/Config.lean` (tied to the real code by `ha
 * `options_beat_file` — in the rc object a section's key holds the LAST option naming it, else the file's text;
   `options_effective` — EVERY list of well-formed options takes effect, with any rc object or none;
 * `malformed_option_rejected` — wrong `=` / `.` count anywhere in the list is an error
-  (`empty_section_option_accepted` : `.x=1` is NOT rejected and lands in DEFAULT);
+  (`empty_section_or_field_rejected_witness` : `.x=1` and `TDS.=1` are rejected since the repair);
 * `alt_rejected` — a constructed config has every public field inside its tuple/set `_alt`;
   `update_alt_rejected` — `Config.update` rejects as well, in every state of the object;
 * `save_load_roundtrip_partial` — ints, finite floats and non-numeric trimmed strings come back with value and
@@ -311,21 +311,32 @@ theorem two_options_one_section_without_rc_take_effect :
 
 /-! ## 4. malformed options -/
 
-theorem parseOpt_malformed (item : String)
-    (h : countC '=' item ≠ 1 ∨ countC '.' (split1 '=' item).1 ≠ 1) : ∃ e, parseOpt item = .error e := by
+/-- a malformed option string: not exactly one `=`, or a left-hand side without exactly one `.`, or an empty section
+or field name around that `.` -/
+def Malformed (item : String) : Prop :=
+  countC '=' item ≠ 1 ∨ countC '.' (split1 '=' item).1 ≠ 1 ∨
+    strip (split1 '.' (split1 '=' item).1).1 = "" ∨ strip (split1 '.' (split1 '=' item).1).2 = ""
+
+theorem parseOpt_malformed (item : String) (h : Malformed item) : ∃ e, parseOpt item = .error e := by
   by_cases h1 : countC '=' item = 1
-  · have h2 : countC '.' (split1 '=' item).1 ≠ 1 := by
-      cases h with
-      | inl h => exact absurd h1 h
-      | inr h => exact h
-    exact ⟨Err.badField, by unfold parseOpt; simp [h1, h2]⟩
+  · by_cases h2 : countC '.' (split1 '=' item).1 = 1
+    · have h3 : strip (split1 '.' (split1 '=' item).1).1 = "" ∨ strip (split1 '.' (split1 '=' item).1).2 = "" := by
+        rcases h with h | h | h
+        · exact absurd h1 h
+        · exact absurd h2 h
+        · exact h
+      refine ⟨Err.badField, ?_⟩
+      unfold parseOpt
+      rcases h3 with h3 | h3 <;> simp [h1, h2, h3]
+    · exact ⟨Err.badField, by unfold parseOpt; simp [h1, h2]⟩
   · exact ⟨Err.badAssign, by unfold parseOpt; simp [h1]⟩
 
-/-- **malformed options are rejected**: an option whose `=` count is not 1, or whose left-hand side does not
-contain exactly one `.`, makes `_update_config_object` raise wherever it stands in the list (an earlier
+/-- **malformed options are rejected**: an option whose `=` count is not 1, whose left-hand side does not
+contain exactly one `.`, or whose section or field name is empty (full strength since the repair of
+`malformed-option-accepted`) makes `_update_config_object` raise wherever it stands in the list (an earlier
 option may raise first; no rc object is ever returned) -/
 theorem malformed_option_rejected (rc : Rc) (pre post : List String) (item : String)
-    (h : countC '=' item ≠ 1 ∨ countC '.' (split1 '=' item).1 ≠ 1) :
+    (h : Malformed item) :
     ∃ e, applyOpts rc (pre ++ item :: post) = .error e := by
   obtain ⟨e0, he0⟩ := parseOpt_malformed item h
   induction pre generalizing rc with
@@ -348,7 +359,7 @@ theorem malformed_option_rejected (rc : Rc) (pre post : List String) (item : Str
 /-- ... and therefore no `System` is constructed -/
 theorem malformed_option_no_system (N : Numerals F) (decls : List (Decl F)) (dict : List (String × Val F))
     (rc : Option Rc) (pre post : List String) (item : String)
-    (h : countC '=' item ≠ 1 ∨ countC '.' (split1 '=' item).1 ≠ 1) :
+    (h : Malformed item) :
     ∃ e, mkSystem N decls dict rc (some (pre ++ item :: post)) = .error e := by
   unfold mkSystem updateRc
   cases hl : pre ++ item :: post with
@@ -363,14 +374,16 @@ theorem malformed_option_no_system (N : Numerals F) (decls : List (Decl F)) (dic
       obtain ⟨e, he⟩ := malformed_option_rejected Rc.empty pre post item h
       exact ⟨(e, ""), by simp [he, Except.map]⟩
 
-example : countC '=' "TDS.tf==3" ≠ 1 ∨ countC '.' (split1 '=' "TDS.tf==3").1 ≠ 1 := by decide +kernel
-example : countC '=' "TDStf=3" ≠ 1 ∨ countC '.' (split1 '=' "TDStf=3").1 ≠ 1 := by decide +kernel
+example : Malformed "TDS.tf==3" := Or.inl (by decide +kernel)
+example : Malformed "TDStf=3" := Or.inr (Or.inl (by decide +kernel))
+example : Malformed ".x=1" := Or.inr (Or.inr (Or.inl (by decide +kernel)))
+example : Malformed "TDS.=1" := Or.inr (Or.inr (Or.inr (by decide +kernel)))
 
-/-- OBSERVATION (real code): an option with an EMPTY section name passes the two counts; it is accepted and
-lands in the parser-wide DEFAULT section, i.e. in every section the rc file has -/
-theorem empty_section_option_accepted :
-    (applyOpts ⟨[], [("System", []), ("TDS", [])]⟩ [".x=1"]).toOption.map
-      (fun r => (r.lookup "System" "x", r.lookup "TDS" "x")) = some (some "1", some "1") := by decide +kernel
+/-- the inputs that were accepted on the pinned tree (`malformed-option-accepted`): an empty section name (`.x=1`
+landed in the parser-wide DEFAULT section, i.e. in every section of the rc file) or an empty field name: both raise -/
+theorem empty_section_or_field_rejected_witness :
+    (applyOpts ⟨[], [("System", []), ("TDS", [])]⟩ [".x=1"]).toOption = none ∧
+    (applyOpts ⟨[], [("System", []), ("TDS", [])]⟩ ["TDS.=1"]).toOption = none := by decide +kernel
 
 /-! ## 5. alternatives -/
 
